@@ -37,10 +37,15 @@ type C08Scenario struct {
 	// Torn[i] > 0: the working directory of schedule i+1 starts with the reports of an interrupted
 	// earlier run of the same pipeline: every report cut to Torn[i] percent of its length (100: empty)
 	Torn []int `json:"torn,omitempty"`
+	// Deploy[i]: deployment of the processes of schedule i+1 (index into deployMenu: locale, terminal
+	// width, HOME unset, NO_COLOR, umask)
+	Deploy []int `json:"deploy,omitempty"`
 	// Unpriv[i]: the processes of schedule i+1 run as an ordinary user owning the working directory
 	Unpriv []bool `json:"unpriv,omitempty"`
 	// Par[i]: the processes of schedule i+1 run with GOMAXPROCS=8
 	Par []bool `json:"par,omitempty"`
+	// SrcIgnore: the source tree holds a harmless .gitignore of its own (*.iml, *.log)
+	SrcIgnore bool `json:"src_ignore,omitempty"`
 	// CountTop+1: the row limit given to `coca count -t`
 	CountTop int    `json:"count_top,omitempty"`
 	Remove   string `json:"remove,omitempty"` // -r for api / call / rcall: package names to strip, possibly one a prefix of another
@@ -217,6 +222,7 @@ func (C08) Generate(t *tape.Tape, tier string) interface{} {
 		sc.LowFD = append(sc.LowFD, t.Bool(1, 4))
 		sc.Par = append(sc.Par, t.Bool(1, 4))
 		sc.Unpriv = append(sc.Unpriv, t.Bool(1, 5))
+		sc.Deploy = append(sc.Deploy, t.Pick(2*len(deployMenu))) // half of the schedules: default deployment
 		torn := 0
 		if t.Bool(1, 4) {
 			torn = 1 + t.Pick(100)
@@ -226,6 +232,7 @@ func (C08) Generate(t *tape.Tape, tier string) interface{} {
 		}
 		sc.Torn = append(sc.Torn, torn)
 		sc.CountTop = t.Pick(5)
+		sc.SrcIgnore = t.Bool(1, 2)
 	}
 	return sc
 }
@@ -722,6 +729,24 @@ func canonGit(raw []byte) (map[string]string, error) {
 
 // ---- execution ----
 
+// deployMenu: deployments whose differences no report may show.
+var deployMenu = []struct {
+	name  string
+	env   []string
+	umask string
+}{
+	{"turkish-locale", []string{"LANG=tr_TR.UTF-8", "LC_ALL=tr_TR.UTF-8"}, ""},
+	{"c-locale", []string{"LANG=C", "LC_ALL=C"}, ""},
+	{"narrow-dumb-terminal", []string{"COLUMNS=20", "LINES=5", "TERM=dumb"}, ""},
+	{"no-home", []string{"HOME=", "USER=", "XDG_CONFIG_HOME="}, ""},
+	{"no-color-ci", []string{"NO_COLOR=1", "CI=true", "TERM=xterm-256color", "FORCE_COLOR=1"}, ""},
+	{"umask-077", nil, "077"},
+	{"umask-000", nil, "000"},
+	// HOME is a directory whose .config/git/ignore (the user's global excludes file) names the top-level
+	// package directories; the variable values are filled in per scenario
+	{"home-with-global-git-excludes", []string{"HOME=", "XDG_CONFIG_HOME="}, ""},
+}
+
 type c08cmd struct {
 	name  string   // artefact prefix
 	args  []string // CLI args
@@ -794,6 +819,23 @@ func (C08) Run(ctx *sim.RunCtx, data json.RawMessage) (*sim.Outcome, error) {
 			site := ctx.Env.Sites[int(s.Seed%uint64(len(ctx.Env.Sites)))]
 			s.Site = strings.TrimPrefix(site, "dep:")
 		}
+		var denv []string
+		dumask := ""
+		if si > 0 && si-1 < len(sc.Deploy) && sc.Deploy[si-1] < len(deployMenu) {
+			d := deployMenu[sc.Deploy[si-1]]
+			denv, dumask = d.env, d.umask
+			if d.name == "home-with-global-git-excludes" {
+				home := filepath.Join(ctx.Dir, "home-excl")
+				os.MkdirAll(filepath.Join(home, ".config", "git"), 0755)
+				excl := "out/\nbin/\ntarget/\na/\nb/\nx/\nz/\nads/\ntools/\np/\npq/\nqr/\nr/\nhub/\njavabook/\njavax/\n"
+				os.WriteFile(filepath.Join(home, ".config", "git", "ignore"), []byte(excl), 0644)
+				os.WriteFile(filepath.Join(home, ".gitignore"), []byte(excl), 0644)
+				os.WriteFile(filepath.Join(home, ".gitignore_global"), []byte(excl), 0644)
+				os.WriteFile(filepath.Join(home, ".gitconfig"), []byte("[core]\n\texcludesfile = ~/.gitignore_global\n"), 0644)
+				denv = []string{"HOME=" + home, "XDG_CONFIG_HOME=" + filepath.Join(home, ".config")}
+			}
+			out.Faults["deployment-differs:"+d.name]++
+		}
 		unpriv := si > 0 && si-1 < len(sc.Unpriv) && sc.Unpriv[si-1]
 		if unpriv {
 			out.Faults["unprivileged-user"]++
@@ -821,6 +863,9 @@ func (C08) Run(ctx *sim.RunCtx, data json.RawMessage) (*sim.Outcome, error) {
 			if err := os.WriteFile(p, []byte(materialiseLegacy(f.Text)), 0644); err != nil {
 				return nil, sim.Harness("%v", err)
 			}
+		}
+		if sc.SrcIgnore {
+			os.WriteFile(filepath.Join(w, "src", ".gitignore"), []byte("*.iml\n*.log\n"), 0644)
 		}
 		for _, f := range sc.Tree {
 			p := filepath.Join(w, "tree", filepath.FromSlash(f.Path))
@@ -863,7 +908,7 @@ func (C08) Run(ctx *sim.RunCtx, data json.RawMessage) (*sim.Outcome, error) {
 				// resource faults aimed at coca's own code are not applied to it
 				cfd, cpar = 0, false
 			}
-			res, err := ctx.Run(&sim.Proc{Schedule: s, Cwd: w, TZ: tz, MaxOpenFiles: cfd, Parallel: cpar, Unprivileged: unpriv, Ops: []sim.Op{{Op: "cli", Args: map[string]interface{}{"args": c.args}}}})
+			res, err := ctx.Run(&sim.Proc{Schedule: s, Cwd: w, TZ: tz, MaxOpenFiles: cfd, Parallel: cpar, Unprivileged: unpriv, Env: denv, Umask: dumask, Ops: []sim.Op{{Op: "cli", Args: map[string]interface{}{"args": c.args}}}})
 			ctx.ProcTimeout = saved
 			if err != nil {
 				return nil, err
@@ -974,7 +1019,7 @@ func (C08) Run(ctx *sim.RunCtx, data json.RawMessage) (*sim.Outcome, error) {
 		if repoDir != "" {
 			os.RemoveAll(filepath.Join(repoDir, "coca_reporter"))
 			for _, gc := range [][2]string{{"git-basic", "-b"}, {"git-team", "-t"}, {"git-top", "-o"}, {"git-summary", "-m"}, {"git-team-cut", "-t -f -s 3"}, {"git-top-cut", "-o -f -s 2"}} {
-				resg, err := ctx.Run(&sim.Proc{Schedule: s, Cwd: repoDir, TZ: tz, MaxOpenFiles: maxFD, Parallel: par, Unprivileged: unpriv, Ops: []sim.Op{{Op: "cli", Args: map[string]interface{}{"args": append([]string{"git"}, strings.Fields(gc[1])...), "read": []string{"coca_reporter/commits.json"}}}}})
+				resg, err := ctx.Run(&sim.Proc{Schedule: s, Cwd: repoDir, TZ: tz, MaxOpenFiles: maxFD, Parallel: par, Unprivileged: unpriv, Env: denv, Umask: dumask, Ops: []sim.Op{{Op: "cli", Args: map[string]interface{}{"args": append([]string{"git"}, strings.Fields(gc[1])...), "read": []string{"coca_reporter/commits.json"}}}}})
 				if err != nil {
 					return nil, err
 				}
@@ -1005,7 +1050,7 @@ func (C08) Run(ctx *sim.RunCtx, data json.RawMessage) (*sim.Outcome, error) {
 		}
 		// library-style analysis: identifier pass, then the full pass with the project-wide identifier set
 		{
-			res, err := ctx.Run(&sim.Proc{Schedule: s, Cwd: w, TZ: tz, MaxOpenFiles: maxFD, Parallel: par, Unprivileged: unpriv, Ops: []sim.Op{{Op: "identDir", Args: map[string]interface{}{"dir": "src"}}}})
+			res, err := ctx.Run(&sim.Proc{Schedule: s, Cwd: w, TZ: tz, MaxOpenFiles: maxFD, Parallel: par, Unprivileged: unpriv, Env: denv, Umask: dumask, Ops: []sim.Op{{Op: "identDir", Args: map[string]interface{}{"dir": "src"}}}})
 			if err != nil {
 				return nil, err
 			}
@@ -1013,7 +1058,7 @@ func (C08) Run(ctx *sim.RunCtx, data json.RawMessage) (*sim.Outcome, error) {
 			if res.Completed(0) && res.Records[0].OK {
 				identFile := filepath.Join(w, "lib-ident.json")
 				os.WriteFile(identFile, res.Records[0].Result, 0644)
-				res2, err := ctx.Run(&sim.Proc{Schedule: s, Cwd: w, TZ: tz, MaxOpenFiles: maxFD, Parallel: par, Unprivileged: unpriv, Ops: []sim.Op{{Op: "fullDir", Args: map[string]interface{}{"dir": "src", "ident": identFile}}}})
+				res2, err := ctx.Run(&sim.Proc{Schedule: s, Cwd: w, TZ: tz, MaxOpenFiles: maxFD, Parallel: par, Unprivileged: unpriv, Env: denv, Umask: dumask, Ops: []sim.Op{{Op: "fullDir", Args: map[string]interface{}{"dir": "src", "ident": identFile}}}})
 				if err != nil {
 					return nil, err
 				}
@@ -1035,7 +1080,7 @@ func (C08) Run(ctx *sim.RunCtx, data json.RawMessage) (*sim.Outcome, error) {
 		if sc.GoFile != "" {
 			goPath := filepath.Join(w, "demo.go")
 			os.WriteFile(goPath, []byte(sc.GoFile), 0644)
-			resg, err := ctx.Run(&sim.Proc{Schedule: s, Cwd: w, TZ: tz, MaxOpenFiles: maxFD, Parallel: par, Unprivileged: unpriv, Ops: []sim.Op{{Op: "goIdent", Args: map[string]interface{}{"file": "demo.go"}}}})
+			resg, err := ctx.Run(&sim.Proc{Schedule: s, Cwd: w, TZ: tz, MaxOpenFiles: maxFD, Parallel: par, Unprivileged: unpriv, Env: denv, Umask: dumask, Ops: []sim.Op{{Op: "goIdent", Args: map[string]interface{}{"file": "demo.go"}}}})
 			if err != nil {
 				return nil, err
 			}
@@ -1054,7 +1099,7 @@ func (C08) Run(ctx *sim.RunCtx, data json.RawMessage) (*sim.Outcome, error) {
 		// one process; "the same input gives the same output on every run" also holds for the third parse
 		gitLog2 := filepath.Join(w, "gitlog2.txt")
 		os.WriteFile(gitLog2, []byte(sc.GitLog2), 0644)
-		res, err := ctx.Run(&sim.Proc{Schedule: s, Cwd: w, TZ: tz, MaxOpenFiles: maxFD, Parallel: par, Unprivileged: unpriv, Ops: []sim.Op{{Op: "git", Args: map[string]interface{}{"logs": []string{gitLog, gitLog2, gitLog}}}}})
+		res, err := ctx.Run(&sim.Proc{Schedule: s, Cwd: w, TZ: tz, MaxOpenFiles: maxFD, Parallel: par, Unprivileged: unpriv, Env: denv, Umask: dumask, Ops: []sim.Op{{Op: "git", Args: map[string]interface{}{"logs": []string{gitLog, gitLog2, gitLog}}}}})
 		if err != nil {
 			return nil, err
 		}
